@@ -23,7 +23,7 @@ sys.path.insert(0, HERE)
 from yk.facts import AnalysisBroken  # noqa: E402
 from yk import session  # noqa: E402
 
-CLAIMED = ['C01', 'C03', 'C04', 'C05', 'C06', 'C07', 'C08', 'C09', 'C10', 'C11', 'C12', 'C13', 'C14', 'C15',
+CLAIMED = ['C01', 'C02', 'C03', 'C04', 'C05', 'C06', 'C07', 'C08', 'C09', 'C10', 'C11', 'C12', 'C13', 'C14', 'C15',
            'C16', 'C17', 'C18', 'C19', 'C20']
 
 EXPLANATION = ('Static discharge of structural obligations (custom dataflow / typestate / who-may-call rules over '
